@@ -74,7 +74,10 @@ impl<'a> QubitGraph<'a> {
 
             for qubit in qubits {
                 if let Some(last_instruction) = last_instruction_for_qubit.insert(qubit, node) {
-                    graph.add_edge(last_instruction, node, ());
+                    // An instruction which repeats a qubit does not depend on itself.
+                    if last_instruction != node {
+                        graph.add_edge(last_instruction, node, ());
+                    }
                 }
             }
         }
